@@ -161,6 +161,8 @@ pub struct RecvEngine {
     hist: HashMap<u128, Hist>,
     sh: Shadow,
     max_xml: usize,
+    /// an allocation oracle already fired in this case (reported once per case)
+    heap_reported: bool,
 }
 
 fn make_rx(c: &Cfg, count: bool) -> Rx {
@@ -183,6 +185,10 @@ fn make_rx(c: &Cfg, count: bool) -> Rx {
     Rx { r, log, cur_fdt }
 }
 
+thread_local! {
+    static LIVE_BEFORE: Cell<i64> = Cell::new(0);
+}
+
 fn drain(log: &Log) -> Vec<(u128, String)> {
     let mut v: Vec<(u128, String)> = log.borrow_mut().drain(..).collect();
     v.sort_by_key(|x| x.0); // stable
@@ -197,7 +203,7 @@ fn panic_class(loc: &str) -> String {
 
 impl RecvEngine {
     pub fn new() -> RecvEngine {
-        RecvEngine { rx: None, rx0: None, cfg: Cfg::default(), dead: false, hist: HashMap::new(), sh: Shadow::default(), max_xml: 0 }
+        RecvEngine { rx: None, rx0: None, cfg: Cfg::default(), dead: false, hist: HashMap::new(), sh: Shadow::default(), max_xml: 0, heap_reported: false }
     }
 
     fn drop_rx(&mut self) {
@@ -212,6 +218,9 @@ impl RecvEngine {
     /// one receiver call on `rx`, returns (OK|ERR|PANIC loc, events)
     fn call(rx: &mut Rx, count: bool, f: impl FnOnce(&mut Receiver) -> bool) -> (Result<bool, String>, Vec<(u128, String)>, Duration) {
         let t0 = std::time::Instant::now();
+        if count {
+            LIVE_BEFORE.with(|c| c.set(alloc::live()));
+        }
         alloc::enter();
         let was = alloc::resume(count);
         let r = guarded(AssertUnwindSafe(|| f(&mut rx.r)));
@@ -241,14 +250,25 @@ impl RecvEngine {
         if nerr > self.cfg.max_err {
             o.fail("C17:errors-over-limit", &format!("nb_objects_error {} > max_objects_error {}", nerr, self.cfg.max_err));
         }
-        // ---- C17: live heap against the configured limits (generous slack; measured, not modelled)
+        // ---- C04: no single call allocates beyond the configured limits
         let live = alloc::live();
+        let grown = live - LIVE_BEFORE.with(|c| c.get());
+        let call_bound = 2 * 1024 * 1024 + self.cfg.max_cache as i64;
+        if grown > call_bound && !self.heap_reported {
+            self.heap_reported = true;
+            o.fail(
+                "C04:alloc-per-call",
+                &format!("{} allocated {} B in one call (bound {} B = 2 MiB + object_max_cache_size {})", what, grown, call_bound, self.cfg.max_cache),
+            );
+        }
+        // ---- C17: live heap against the configured limits (generous slack; measured, not modelled)
         let unfinished = self.sh.unfinished() as i64;
         let bound = (nobj as i64) * (self.cfg.max_cache as i64 + 16 * 1024)
             + unfinished * (1024 * 1024 + 16 * 1024)
             + 1024 * 1024
             + 64 * self.max_xml as i64;
-        if live > bound {
+        if live > bound && !self.heap_reported {
+            self.heap_reported = true;
             o.fail(
                 "C17:heap-over-config",
                 &format!("live heap {} B > bound {} B (objects {}, unfinished FDT instances {}, cache limit {})", live, bound, nobj, unfinished, self.cfg.max_cache),
@@ -340,6 +360,7 @@ impl Engine for RecvEngine {
         self.hist.clear();
         self.sh = Shadow::default();
         self.max_xml = 0;
+        self.heap_reported = false;
         self.cfg = Cfg::default();
     }
 
